@@ -1,9 +1,13 @@
 #!/bin/sh
-# usage: tools/seedtest.sh <seed-name> <PROPERTY>...   -- apply the seeded change to /repo, run the quick checks, undo.
+# usage: tools/seedtest.sh <seed-name> <PROPERTY>...
+# Applies the seeded change to a scratch worktree of /repo (never to /repo itself), runs the quick checks against it
+# (VERIF_REPO; scratch and evidence directories of its own) and removes the worktree again.
 NAME="$1"; shift
-git -C /repo diff --quiet || { echo "/repo has local changes"; exit 2; }
-git -C /repo apply "/verif/seeded/$NAME/patch.diff" || exit 2
+WT="/tmp/wt/seed_$NAME"
+git -C /repo worktree add --detach -f "$WT" HEAD >/dev/null 2>&1 || exit 2
+git -C "$WT" apply "/verif/seeded/$NAME/patch.diff" || { git -C /repo worktree remove --force "$WT"; exit 2; }
+export VERIF_WORK="/tmp/wt/work_$NAME" VERIF_EVIDENCE="/tmp/wt/evid_$NAME"
 for P in "$@"; do
-  ( cd /verif && ./vcheck "$P" --tier "${TIER:-quick}" > "/tmp/seedtest_${NAME}_$P.log" 2>&1; echo "$NAME $P exit=$? $(grep -c '^VIOLATION' /tmp/seedtest_${NAME}_$P.log) violations; $(grep -m1 -A1 '^VIOLATION' /tmp/seedtest_${NAME}_$P.log | tail -1)" )
+  ( cd /verif && VERIF_REPO="$WT" ./vcheck "$P" --tier "${TIER:-quick}" > "/tmp/seedtest_${NAME}_$P.log" 2>&1; echo "$NAME $P exit=$? $(grep -c '^VIOLATION' /tmp/seedtest_${NAME}_$P.log) violations; $(grep -m1 -A1 '^VIOLATION' /tmp/seedtest_${NAME}_$P.log | tail -1)" )
 done
-git -C /repo checkout -- .
+git -C /repo worktree remove --force "$WT"; git -C /repo worktree prune; rm -rf "$VERIF_WORK" "$VERIF_EVIDENCE"
